@@ -47,6 +47,8 @@ func c10Decls() []c10Decl {
 		{"v", func() *gen.VarDecl { return originDecl("account", "v", "meta", gen.Acct("b"), gen.Str("acc")) }},
 		{"e", func() *gen.VarDecl { return originDecl("monetary", "e", "balance", gen.Acct("a"), gen.Asset("EUR")) }},
 		{"w", func() *gen.VarDecl { return &gen.VarDecl{Type: &gen.TypeName{Name: "account"}, Name: gen.V("w")} }},
+		{"mw", func() *gen.VarDecl { return originDecl("monetary", "mw", "overdraft", gen.Acct("world"), gen.Asset("USD")) }},
+		{"bw", func() *gen.VarDecl { return originDecl("monetary", "bw", "overdraft", gen.V("w"), gen.Asset("USD")) }},
 	}
 }
 
@@ -84,6 +86,8 @@ func c10Ops() []c10Op {
 			return sv(&gen.SentLit{E: gen.Mon(U, "3")}, lst(&gen.SrcAccount{E: v("w")}, sa("a")), da("x"))
 		}}, "w"},
 		c10Op{op{"save1 $w", 0, func() gen.Stmt { return &gen.Save{Sent: &gen.SentLit{E: gen.Mon(U, "1")}, Acct: v("w")} }}, "w"},
+		c10Op{op{"send $mw world->x", 0, func() gen.Stmt { return sv(&gen.SentLit{E: v("mw")}, sa("world"), da("x")) }}, "mw"},
+		c10Op{op{"send $bw world->x", 0, func() gen.Stmt { return sv(&gen.SentLit{E: v("bw")}, sa("world"), da("x")) }}, "bw"},
 		c10Op{op{"send2 $w od2 ->x", 0, func() gen.Stmt {
 			return sv(&gen.SentLit{E: gen.Mon(U, "2")}, &gen.SrcOverdraft{Addr: v("w"), Bounded: gen.Mon(U, "2")}, da("x"))
 		}}, "w"},
@@ -146,6 +150,9 @@ func runC10(w *mc.Worker) {
 					prog.Vars = append(prog.Vars, decls[di].Mk())
 					have[decls[di].Name] = true
 				}
+				if have["bw"] && !have["w"] {
+					return // $bw reads balance($w): only meaningful after $w is declared
+				}
 				var avail []c10Op
 				for _, p := range ops {
 					if p.Needs == "" || have[p.Needs] {
@@ -170,13 +177,15 @@ func runC10(w *mc.Worker) {
 						"a": {"USD": a[in.Choose(len(a))], "EUR": aeur[in.Choose(len(aeur))]},
 						"b": {"USD": b[in.Choose(len(b))]},
 						"x": {"USD": bi(0)},
+						// the ledger's own view of @world (usually negative): must never be asked for nor matter
+						"world": {"USD": bi(-100)},
 					}
 					meta := env.Meta{}
 					vars := map[string]string{}
 					if have["v"] {
 						meta["b"] = map[string]string{"acc": []string{"a", "x"}[in.Choose(2)]}
 					}
-					if have["w"] {
+					if have["w"] || have["bw"] {
 						vars["w"] = []string{"a", "b", "world"}[in.Choose(3)]
 					}
 					inp := ref.Inputs{Vars: vars, Bal: bal, Meta: meta, OverdraftFlag: true}
